@@ -30,5 +30,5 @@ void harness (void)
   VF_ASSERT ((v == DBUS_VALID) == (spec != 0), "signature verdict equals the type-system grammar");
   if (v == DBUS_VALID && len == N) VF_WITNESS ("accepts some maximal-length signature");
   if (v != DBUS_VALID && len == N) VF_WITNESS ("rejects some maximal-length string");
-  if (v == DBUS_VALID && len >= 6 && buf[start + 1] == '{') VF_WITNESS ("accepts a dict signature");
+  if (v == DBUS_VALID && len >= 5 && buf[start + 1] == '{') VF_WITNESS ("accepts a dict signature");
 }
